@@ -283,48 +283,61 @@ theorem doWithContext_full {g cx : Nat} {y : Option LoaderId} {body : World → 
 theorem headOf_forkCtx (c : CtxId) (w : World) : headOf (forkCtx c w).2 w.nextCtx = some w.nextLoader := by
   simp [headOf, forkCtx, newCtx, newLoader]
 
-theorem doDo_full {g : Nat} {id : Nat} {body : CtxId → World → Outcome × World} {w : World}
-    (hinv : Inv w) (hg : g < w.nextGid) (hgp : g ∉ pendGids w)
+theorem catch_full {g : Gid} {ctch : Bool} {r : Outcome × World} {xc : Option CtxId} {x : Option LoaderId} {w : World}
+    (base : Full xc x w r.2) :
+    Full xc x w (if ctch = true ∧ r.1 = .panicked then (Outcome.normal, emit g .recovered r.2) else r).2 := by
+  by_cases hc : ctch = true ∧ r.1 = .panicked
+  · rw [if_pos hc]
+    exact base.trans (emit_full base.s.inv EvOK.recovered) (fun _ _ _ => by simp) (fun _ _ _ _ => by simp)
+  · rw [if_neg hc]
+    exact base
+
+theorem doParent_full {g : Nat} {id : Nat} {ctch : Bool} {body : CtxId → World → Outcome × World} {root : Nat} {w2 : World}
+    (hp : Pre g root w2)
     (hb : ∀ cx w1, Pre g cx w1 →
       Full (some cx) (headOf w1 cx) w1 (body cx w1).2 ∧ (body cx w1).2.tls = w1.tls) :
-    Full none none w (doDo .now g id body w).2 := by
-  simp only [doDo]
-  have s0 : Full none none w (newCtx { loader := [0] } w).2 := newCtx_full hinv
-  have hroot : (newCtx { loader := [0] } w).1 = w.nextCtx := rfl
-  rw [hroot]
-  have inner : ∀ w2, Pre g w.nextCtx w2 → w2.ctxs = (newCtx { loader := [0] } w).2.ctxs →
-      Full (some w.nextCtx) none w2 (doWithContext .now g (forkCtx w.nextCtx w2).1
-        (fun w4 => body (forkCtx w.nextCtx w2).1 (setVar (forkCtx w.nextCtx w2).1 tagKey id w4)) (forkCtx w.nextCtx w2).2).2 ∧
-      (doWithContext .now g (forkCtx w.nextCtx w2).1
-        (fun w4 => body (forkCtx w.nextCtx w2).1 (setVar (forkCtx w.nextCtx w2).1 tagKey id w4)) (forkCtx w.nextCtx w2).2).2.tls = w2.tls := by
-    intro w2 hp _
-    have sF : Full none none w2 (forkCtx w.nextCtx w2).2 := forkCtx_full hp.inv
-    have hbody : ∀ w4, Pre g w2.nextCtx w4 → w4.ctxs = (forkCtx w.nextCtx w2).2.ctxs →
-        Full (some w2.nextCtx) (some w2.nextLoader) w4 (body w2.nextCtx (setVar w2.nextCtx tagKey id w4)).2 ∧
-        (body w2.nextCtx (setVar w2.nextCtx tagKey id w4)).2.tls = w4.tls := by
-      intro w4 hp4 hc4
-      have s4 : Full (some w2.nextCtx) none w4 (setVar w2.nextCtx tagKey id w4) := setVar_full hp4.inv (lex_ne_pend hp4)
-      obtain ⟨sb, tb⟩ := hb w2.nextCtx _ (hp4.step s4.s rfl)
-      have hh : headOf (setVar w2.nextCtx tagKey id w4) w2.nextCtx = some w2.nextLoader := by
-        have := headOf_forkCtx w.nextCtx w2
-        simp only [headOf] at this ⊢
-        rw [← hc4] at this
-        simpa [setVar, ctxUpd] using this
-      rw [hh] at sb
-      exact ⟨s4.weakenL.trans sb (fun _ _ h => h) (fun _ _ h _ => h), by rw [tb]; rfl⟩
-    obtain ⟨hd, ht⟩ := doWithContext_full (g := g) (cx := w2.nextCtx) (y := some w2.nextLoader) (w := (forkCtx w.nextCtx w2).2)
-      (body := fun w4 => body w2.nextCtx (setVar w2.nextCtx tagKey id w4))
-      sF.s.inv hp.glt hp.gnp (by simp) (ctx_fresh_not_pend hp.inv) (fun g' => ctx_fresh_not_estab hp.inv g') hbody
-    simp only [forkCtx_fst]
-    refine ⟨(sF.trans hd ?_ ?_).weakenC (lex_ne_pend hp), by rw [ht]; rfl⟩
+    Full (some root) none w2 (doParent .now g id ctch body root w2).2 := by
+  have sF : Full none none w2 (forkCtx root w2).2 := forkCtx_full hp.inv
+  have hbody : ∀ w4, Pre g w2.nextCtx w4 → w4.ctxs = (forkCtx root w2).2.ctxs →
+      Full (some w2.nextCtx) (some w2.nextLoader) w4 (body w2.nextCtx (setVar w2.nextCtx tagKey id w4)).2 ∧
+      (body w2.nextCtx (setVar w2.nextCtx tagKey id w4)).2.tls = w4.tls := by
+    intro w4 hp4 hc4
+    have s4 : Full (some w2.nextCtx) none w4 (setVar w2.nextCtx tagKey id w4) := setVar_full hp4.inv (lex_ne_pend hp4)
+    obtain ⟨sb, tb⟩ := hb w2.nextCtx _ (hp4.step s4.s rfl)
+    have hh : headOf (setVar w2.nextCtx tagKey id w4) w2.nextCtx = some w2.nextLoader := by
+      have := headOf_forkCtx root w2
+      simp only [headOf] at this ⊢
+      rw [← hc4] at this
+      simpa [setVar, ctxUpd] using this
+    rw [hh] at sb
+    exact ⟨s4.weakenL.trans sb (fun _ _ h => h) (fun _ _ h _ => h), by rw [tb]; rfl⟩
+  obtain ⟨hd, _⟩ := doWithContext_full (g := g) (cx := w2.nextCtx) (y := some w2.nextLoader) (w := (forkCtx root w2).2)
+    (body := fun w4 => body w2.nextCtx (setVar w2.nextCtx tagKey id w4))
+    sF.s.inv hp.glt hp.gnp (by simp) (ctx_fresh_not_pend hp.inv) (fun g' => ctx_fresh_not_estab hp.inv g') hbody
+  have base : Full (some root) none w2 (doWithContext .now g w2.nextCtx
+      (fun w4 => body w2.nextCtx (setVar w2.nextCtx tagKey id w4)) (forkCtx root w2).2).2 := by
+    refine (sF.trans hd ?_ ?_).weakenC (lex_ne_pend hp)
     · intro i hi _ hc
       simp at hc; omega
     · intro l hl _ _ hc
       simp at hc; omega
+  simp only [doParent, forkCtx_fst]
+  exact catch_full (g := g) (ctch := ctch) base
+
+theorem doDo_full {g : Nat} {id : Nat} {ctch : Bool} {body : CtxId → World → Outcome × World} {w : World}
+    (hinv : Inv w) (hg : g < w.nextGid) (hgp : g ∉ pendGids w)
+    (hb : ∀ cx w1, Pre g cx w1 →
+      Full (some cx) (headOf w1 cx) w1 (body cx w1).2 ∧ (body cx w1).2.tls = w1.tls) :
+    Full none none w (doDo .now g id ctch body w).2 := by
+  simp only [doDo]
+  have s0 : Full none none w (newCtx { loader := [0] } w).2 := newCtx_full hinv
+  have hroot : (newCtx { loader := [0] } w).1 = w.nextCtx := rfl
+  rw [hroot]
   obtain ⟨hd, _⟩ := doWithContext_full (g := g) (cx := w.nextCtx) (y := none) (w := (newCtx { loader := [0] } w).2)
-    (body := fun w2 => doWithContext .now g (forkCtx w.nextCtx w2).1
-        (fun w4 => body (forkCtx w.nextCtx w2).1 (setVar (forkCtx w.nextCtx w2).1 tagKey id w4)) (forkCtx w.nextCtx w2).2)
-    s0.s.inv hg hgp (Nat.lt_succ_self _) (ctx_fresh_not_pend hinv) (fun g' => ctx_fresh_not_estab hinv g') inner
+    (body := doParent .now g id ctch body w.nextCtx)
+    s0.s.inv hg hgp (Nat.lt_succ_self _) (ctx_fresh_not_pend hinv) (fun g' => ctx_fresh_not_estab hinv g')
+    (fun w2 hp _ => ⟨doParent_full hp hb,
+      (doParent_step hp (fun cx w1 hp1 => ⟨(hb cx w1 hp1).1.s, (hb cx w1 hp1).2⟩)).2⟩)
   refine s0.trans hd ?_ (fun _ _ h _ => h)
   intro i hi _ hc
   simp at hc; omega
@@ -494,7 +507,13 @@ theorem exec_full : ∀ f, ExecFull (exec .now f) := by
         have k2 := ctx_keep sVd hp1 hne
         rw [k2, k1]
     | dodo id p =>
-      have sd := doDo_full (id := id) (body := fun cx w1 => exec .now f p g cx w1) h.inv h.glt h.gnp
+      have sd := doDo_full (id := id) (ctch := false) (body := fun cx w1 => exec .now f p g cx w1) h.inv h.glt h.gnp
+        (fun cx w1 hp => ⟨(ih p g cx w1 hp).1, (ih p g cx w1 hp).2.1⟩)
+      refine ⟨?_, htls, ?_⟩ <;> simp only [exec]
+      · exact (sd.weakenC hx).weakenL
+      · rw [ctx_keep sd h (by simp)]
+    | dotry id p =>
+      have sd := doDo_full (id := id) (ctch := true) (body := fun cx w1 => exec .now f p g cx w1) h.inv h.glt h.gnp
         (fun cx w1 hp => ⟨(ih p g cx w1 hp).1, (ih p g cx w1 hp).2.1⟩)
       refine ⟨?_, htls, ?_⟩ <;> simp only [exec]
       · exact (sd.weakenC hx).weakenL
